@@ -19,7 +19,7 @@ import time
 import framework as fw
 from framework import REPO, ROOT, BUILD
 
-HARNESS = ["e2/e2_core_test.go", "e2/e2_exec_test.go", "e2/e2_hook_test.go", "e2/e2_conc_test.go", "e2/e2_sched_test.go"]
+HARNESS = ["e2/e2_core_test.go", "e2/e2_exec_test.go", "e2/e2_hook_test.go", "e2/e2_conc_test.go", "e2/e2_sched_test.go", "e2/e2_live_test.go"]
 PROPS_ALL = ["C01", "C02", "C03", "C13"]
 
 # which property an oracle failure key belongs to (a key may belong to several)
